@@ -120,6 +120,7 @@ func resourceAdversarial(r *Rng) string {
 	return Pick(r, []string{
 		"a=[1]; b=[1]; i=0; while i<45 { a=[a,a]; b=[b,b]; i=i+1 }; a == b", "a={'k':1}; b={'k':1}; i=0; while i<45 { a={'x':a,'y':a}; b={'x':b,'y':b}; i=i+1 }; a == b", "a=[1]; b=[2]; i=0; while i<45 { a=[a,a]; b=[b,b]; i=i+1 }; a != b",
 		"a=[1]; b=[1]; i=0; while i<45 { a=[a,a,a]; b=[b,b,b]; i=i+1 }; [a] == [b]",
+		"[1].kh(9223372036854775807)", "[3,1,2].kl(9223372036854775807) + [1].kh(3000000000)", "xs=[1,2,3]; xs.kh(4611686018427387904)", "[1,2].randSize(9223372036854775807)",
 		"s='x'; i=0; while i<40 { s = s + s; i=i+1 }; 1",
 		"s='x'; i=0; while i<60 { s = `{s}{s}`; i=i+1 }; 1",
 		"xs=[1,2]; i=0; while i<20 { xs = xs + xs; i=i+1 }",
